@@ -22,6 +22,8 @@ structure St where
   anon : Bool := false
   /-- the case's event centres are in queue mode (`localUseChan`) -/
   useChan : Bool := true
+  /-- B was restarted by its supervisor in this case (a second `crash` is rejected) -/
+  crashed : Bool := false
 
 structure Burst where
   p : Nat
@@ -92,22 +94,23 @@ def counts (useChan : Bool) (b : Burst) (front : Bool) : List (String × Nat) :=
    ("gev", b.gev), ("req", b.req), ("mute", b.tmo),
    ("raw", b.raw), ("ntf", b.ntf + 3 * b.slow), ("slow", b.slow), ("sib", if front then b.sib else 0),
    ("rsp", b.req + b.raw), ("tmo", b.tmo), ("sfl", b.sfl)] ++
-  (if front then [("sadd", b.ses), ("smsg", b.ses * b.msg), ("srem", b.ses)] else [])
+  (if front then [("sadd", b.ses), ("smsg", b.ses * b.msg), ("srem", b.ses), ("sio", b.ses)] else [])
 
 /-- the observation of a serial service: goroutine set {1}, at most 1 in flight -/
 def showSvc (cs : List (String × Nat)) : String :=
-  ",".intercalate ((cs.filter (·.2 > 0)).map fun c => s!"{c.1}={c.2}/1/1")
+  -- `sio` (the framework's uses of the connection object on the service's behalf): how many is not observed
+  ",".intercalate ((cs.filter (·.2 > 0)).map fun c => if c.1 == "sio" then "sio=~/1/1" else s!"{c.1}={c.2}/1/1")
 
 def step (s : St) (line : String) : St × String :=
   let ws := words line
   match ws with
-  | ["reset"] => ({ started := true, anon := true, useChan := true }, "ok A:post=1/1/1 B:post=1/1/1 U:post=1/1/1 V:post=1/1/1")
+  | ["reset"] => ({ started := true, anon := true, useChan := true, crashed := false }, "ok A:post=1/1/1 B:post=1/1/1 U:post=1/1/1 V:post=1/1/1")
   | ["anon", _, _, _, _, _] =>
     match numKV ws "p", numKV ws "post", numKV ws "ses", numKV ws "msg", numKV ws "busy" with
     | some p, some post, some k, some m, some busy =>
       if !s.anon || p < 1 || p > 16 || post > 400 || k > 40 || m > 40 || busy > 1 then (s, "bad-op")
       else
-        let sess := [("sadd", k), ("smsg", k * m), ("srem", k)]
+        let sess := [("sadd", k), ("smsg", k * m), ("srem", k), ("sio", k)]
         (s, "ok U:" ++ showSvc ([("post", post + busy)] ++ sess) ++ " V:" ++ showSvc ([("post", post)] ++ sess))
     | _, _, _, _, _ => (s, "bad-op")
   | ["flood", _, _] =>
@@ -123,6 +126,36 @@ def step (s : St) (line : String) : St × String :=
       if !s.started || n < 1 || n > 200 || (how != "helper" && how != "sync") then (s, "bad-op")
       else (s, "ok A:" ++ showSvc [("post", 1), ("req", n), ("rsp", n)] ++ " B:")
     | _, _ => (s, "bad-op")
+  | ["wfall", _, _, _, _] =>
+    -- n waterfall.Sche chains of `steps` steps; step `fail` (0 = none) reports failure: the steps up to it run, then the final
+    match numKV ws "n", numKV ws "steps", numKV ws "fail", kv ws "by" with
+    | some n, some steps, some fail, some by_ =>
+      if !s.started || n < 1 || n > 40 || steps < 1 || steps > 4 || fail > steps || (by_ != "loop" && by_ != "helper") then (s, "bad-op")
+      else (s, "ok A:" ++ showSvc [("post", 1), ("wstep", n * (if fail > 0 then fail else steps)), ("wfin", n)] ++ " B:")
+    | _, _, _, _ => (s, "bad-op")
+  | ["talk", _, _] =>
+    -- one connection, n messages back to back, optionally kicked by the service afterwards, then closed
+    match numKV ws "n", numKV ws "kick" with
+    | some n, some kick =>
+      if !s.started || n < 1 || n > 3000 || kick > 1 then (s, "bad-op")
+      else (s, "ok A:" ++ showSvc [("post", kick), ("sadd", 1), ("smsg", n), ("srem", 1), ("kick", kick), ("sio", 1)] ++ " B:")
+    | _, _ => (s, "bad-op")
+  | ["tcancel", _] =>
+    -- A's n expired-then-cancelled timers never run; B's n timers run on B
+    match numKV ws "n" with
+    | some n =>
+      if !s.started || n < 1 || n > 50 then (s, "bad-op")
+      else (s, "ok A:" ++ showSvc [("post", 1)] ++ " B:" ++ showSvc [("post", 1), ("tmr", n)])
+    | none => (s, "bad-op")
+  | ["crash", _, _, _] =>
+    -- B: the blocking piece, the panicking message, q notifies behind it, then post closures, tmr timers (armed by
+    -- one more closure) and q more notifies for the new incarnation
+    match numKV ws "q", numKV ws "post", numKV ws "tmr" with
+    | some q, some post, some tmr =>
+      if !s.started || s.crashed || q > 40 || post > 100 || tmr > 20 then (s, "bad-op")
+      else ({ s with crashed := true },
+        "ok A: B:" ++ showSvc [("post", 1 + post + b2n (tmr > 0)), ("tmr", tmr), ("ntf", 2 * q), ("boom", 1)])
+    | _, _, _ => (s, "bad-op")
   | "burst" :: rest =>
     if ws.length != 19 || !s.started then (s, "bad-op")
     else match parseBurst rest with
@@ -140,7 +173,7 @@ def step (s : St) (line : String) : St × String :=
       else
         -- the stopping piece runs; how many of the queued closures still run is up to the loop's select ("~");
         -- the k sessions were added before the stop; nothing runs after it (no `srem`)
-        ({ s with started := false }, "ok A:post=~/1/1" ++ (if k > 0 then s!",sadd={k}/1/1" else "") ++ " B:")
+        ({ s with started := false }, "ok A:post=~/1/1" ++ (if k > 0 then s!",sadd={k}/1/1,sio=~/1/1" else "") ++ " B:")
     | _, _, _ => (s, "bad-op")
   | _ => (s, "bad-op")
 
